@@ -461,6 +461,7 @@ func (*c15Prop) Run(cc Case) Verdict {
 		}
 	})
 	v.Steps += info.Steps
+	v.Trace = info.TraceHash
 	if info.OverBudget || info.Deadlock || info.Unreplayable {
 		v.Discard = "taint-budget"
 		return v
